@@ -31,7 +31,9 @@ MethodVerdicts(o) ==
   IF o.status # 200 THEN {}
   ELSE C01(o) \cup
        (IF IsUtility(Method(o)) /\ HasEval(o) THEN C03(o) \cup C04(o) ELSE {}) \cup
-       (IF Method(o) = "majorityHeuristic" /\ HasEval(o) THEN C11(o) ELSE {})
+       (IF Method(o) = "majorityHeuristic" /\ HasEval(o) THEN C11(o) ELSE {}) \cup
+       (IF Method(o) = "aspectEliminationHeuristic" /\ HasEval(o) THEN C12(o) ELSE {}) \cup
+       (IF Method(o) = "satisfactionHeuristic" /\ HasEval(o) THEN C13(o) ELSE {})
 
 (* relation between the members of a group of runs (adjacent lines sharing case.group.id) *)
 GroupSummary(o) ==
